@@ -271,6 +271,12 @@ def gen_cigar(rng, allow_h=True):
 def gen_read(rng, ctx, alt, name=None, start=None, allow_h=True, p_noqual=0.08):
     ops, kind = gen_cigar(rng, allow_h)
     lo, hi = ctx.wide
+    if start is None and hi - lo < 4000 and rng.random() < 0.03:
+        # a long read that runs ACROSS the whole wide region of the gene (both of its ends lie outside): it spans every position
+        start = max(0, lo - rng.randint(1, 25))
+        ops = [(0, hi - start + rng.randint(1, 25))] if rng.random() < 0.5 else \
+              [(0, (hi - start) // 2), (2, rng.randint(1, 3)), (0, hi - start - (hi - start) // 2 + rng.randint(1, 25))]
+        kind = "std"
     if start is None:
         r = rng.random()
         if r < 0.35 and ctx.phaseable:
